@@ -2,6 +2,7 @@
 C16 — File locks: others' locks block pushes, write bits and cache follow the server.
 Property theorems only (obligations of ./check C16).
 -/
+import LfsModel.Gen
 import LfsModel.Locks
 import LfsModel.PostCommit
 
@@ -241,5 +242,17 @@ theorem commit_hook_sees_only_changes (parents : List PostCommit.Tree) (hne : pa
     (h : p ∈ PostCommit.changed parents t) :
     ∃ par ∈ parents, PostCommit.lookup par p ≠ PostCommit.lookup t p ∨ (∃ b, (p, b) ∈ t ∧ PostCommit.lookup par p ≠ some b) :=
   PostCommit.unchanged_not_listed parents hne t p h
+
+/-! tie to commands/command_unlock.go as it is in /repo now -/
+/-- the guard of `git lfs unlock --id` looks the lock up in the local cache (third argument true) and, when that
+    yields nothing, asks the SERVER (third argument false): the user's own lock that this clone's cache does not
+    hold still has a path, so its file's uncommitted changes still block the unlock -/
+theorem gen_unlock_by_id_asks_cache_then_server :
+    Gen.unlockByIdLookups =
+      [[102, 105, 108, 116, 101, 114, 44, 32, 48, 44, 32, 116, 114, 117, 101, 44, 32, 102, 97, 108, 115, 101, 32, 124, 32],
+        -- filter, 0, true, false | 
+       [102, 105, 108, 116, 101, 114, 44, 32, 48, 44, 32, 102, 97, 108, 115, 101, 44, 32, 102, 97, 108, 115, 101, 32, 124, 32, 108, 101, 110, 40, 108, 111, 99, 107, 115, 41, 32, 61, 61, 32, 48]]
+        -- filter, 0, false, false | len(locks) == 0
+      := by decide
 
 end C16
